@@ -39,6 +39,12 @@ RULES = {
         (r"check_vectorised_function", "outside", "how vectorisation is detected; whichever branch is then taken returns the pointwise values"),
     ],
     "C03": [
+        (r"get_subset_arrays\(", "fixed", "samples rejected for leaving the unit hypercube were kept, but every test prior was -inf outside the bounds and hid them; now a prior that does not test the bounds (model nocheck, reparameterisation None)"),
+        (r"while n_accepted < n and n_draw|np\.empty\(\[0|n_flows >= 1|np\.isclose\(w_sum", "equivalent", "same behaviour on every reachable input"),
+        (r"np\.isnan\(x_prime\)|np\.isfinite\(x_prime\)\.all\(\)|np\.isnan\(log_Q\)", "outside", "warnings / defensive raises on NaN input"),
+        (r"accept = \(|acc = \(", "outside", "acceptance masks differ only on rows with non-finite coordinates / densities, which the flows do not produce"),
+        (r"batch_evaluate_log_prior\(", "outside", "the stored logP of a new sample is only tested for finiteness here; C03 constrains logU, logQ, logW"),
+        (r"log_q\.shape\[1\] == self\.n_proposals", "outside", "guard against updating twice"),
         (r"\[.it.\] = self\.iteration", "outside", "the `it` label of a sample is not read by the density bookkeeping"),
         (r"new_points\[.logL.\]", "outside", "warnings about non-finite likelihoods"),
         (r"add_new_proposal_weight: const", "outside", "guard on an impossible count"),
